@@ -268,7 +268,12 @@ def main(argv=None):
                unverified_neighbours=ent.get('unverified_neighbours', []),
                solver_time_ms=solver_ms,
                samples=[o for o in per[:3]] + [dict(failed=f['id'], message=f['message'], detail=f.get('detail')) for f in failed[:3]],
-               explanation=ent.get('explanation', ''))
+               explanation=ent.get('explanation', ''),
+               verdict_rule=('exit 0: every obligation generated from the current /repo source was discharged (listed known findings aside). '
+                             'exit 1 (VIOLATION): an obligation that is discharged on the unchanged tree failed AND every proof hint of its function was '
+                             'spliced where it belongs (or the failure is a Kani counterexample / a lemma). exit 2 (UNDECIDED): Verus rejected the '
+                             'generated text, a resource limit was hit, the vacuity canary verified, or the failing function changed shape so that its '
+                             'proof hints were lost -- a proof gap looks exactly like that, so it is never reported as a violation.'))
     if level != 'proof' or bounded:
         cov['evaluations'] = max(1, nobl)
         cov['distinct_nontrivial'] = max(2, nobl)
